@@ -18,6 +18,7 @@ CONSTANTS
   KwChoices,   \* set of sets of op names a register() call may pass handlers for
   OffChoices,  \* set of sets of op names that may be passed as False (op=False) among those
   LookOps,     \* ops a Lookup action may ask for
+  Stars,       \* TRUE: wildcard steps (Star) count as lookups too; needs keys, get and iterate in Ops
   ReReg,       \* TRUE: a type may be registered again (new handler, any exact flag)
   AllOrders,   \* TRUE: Init also ranges over every iteration order of register_op's known-type set
   PrintUniverse,
@@ -122,7 +123,9 @@ Families ==
    objroot  |-> [regt |-> <<"object", "C1", "C2">>,     objs |-> <<"object", "C3", "tuple">>],
    \* types that are both registered and looked up (memo of a type's own entry, False handlers)
    own      |-> [regt |-> <<"MD", "ML", "MO">>,         objs |-> <<"MD", "ML", "MO", "ML2">>],
-   ownchain |-> [regt |-> <<"C1", "C2", "C3">>,         objs |-> <<"C2", "C3", "C4">>]]
+   ownchain |-> [regt |-> <<"C1", "C2", "C3">>,         objs |-> <<"C2", "C3", "C4">>],
+   \* wildcard steps on the builtin containers themselves (re-registered) and on their subclasses
+   star     |-> [regt |-> <<"dict", "list", "MD">>,     objs |-> <<"dict", "list", "tuple", "MD2", "C1">>]]
 
 \* ---- the order in which register_op iterated over its set of known types in this process -------
 Pos == [object |-> PosObject, dict |-> PosDict, list |-> PosList, tuple |-> PosTuple, OrderedDict |-> PosOD,
@@ -156,12 +159,15 @@ DoRegister ==
        /\ (ReReg \/ ~UserRegistered(r, t))
        /\ \E off \in OffChoices : off \subseteq ops /\ Register(r, t, SeqOf(ops), exact, SeqOf(off))
 DoLookup ==
-  /\ Count("look") < MaxLook
+  /\ Count("look") + Count("star") < MaxLook
   /\ \E r \in DOMAIN regs : \E T \in Objs : \E op \in LookOps : Lookup(r, T, op)
+DoStar ==
+  /\ Stars /\ Count("look") + Count("star") < MaxLook
+  /\ \E r \in DOMAIN regs : \E T \in Objs : Star(r, T)
 DoNew ==
   /\ Dynamic /\ Count("new") < MaxNew
   /\ \E r \in DOMAIN regs : NewGlommer(r, korder)
-Next == (DoRegister \/ DoLookup \/ DoNew) /\ UNCHANGED <<fam, korder>>
+Next == (DoRegister \/ DoLookup \/ DoStar \/ DoNew) /\ UNCHANGED <<fam, korder>>
 Spec == Init /\ [][Next]_vars
 
 \* ---- laws (INVARIANT / PROPERTY lines of the cfg file) ----------------------------------------
